@@ -16,6 +16,7 @@ def _strings(alphabet, maxlen):
 def block_heuristics(viol):
     """line_is_list_item == the CommonMark list-item start (marker, then space / tab) after any leading blanks;
     line_is_table_row == first non-blank character is '|'; line_is_block_content == either"""
+    _v0 = len(viol)
     from flowmark.linewrapping import block_heuristics as B
     li = re.compile(r"^\s*(?:[-*+]|[0-9]{1,9}[.)])[ \t]")
     n = 0
@@ -28,7 +29,7 @@ def block_heuristics(viol):
             viol.append({"clause": "line_is_table_row_as_documented", "input": {"line": s}, "got": B.line_is_table_row(s), "want": want_tr})
         if bool(B.line_is_block_content(s)) != (want_li or want_tr):
             viol.append({"clause": "line_is_block_content_is_either", "input": {"line": s}, "got": B.line_is_block_content(s)})
-        if len(viol) > 20:
+        if len(viol) - _v0 > 20:
             break
     for s in ("1234567890. x", "123456789. x", "- x", "-x", "--- ", "1.0.0", "1.Item", "  * y", "\t- z", "| a | b", "|---|---", "a | b", "  | a"):
         n += 1
@@ -44,9 +45,10 @@ CLOSE = ("%}", "#}", "}}", "-->")
 def tag_line_predicates(viol):
     """line_ends_with_tag / line_starts_with_tag / _is_unindented_tag_line / _is_tag_only_line / _is_closing_tag as their
     docstrings define them (delimiters at the stripped ends; indented lines are never tag-only / unindented)"""
+    _v0 = len(viol)
     from flowmark.linewrapping import tag_handling as T
     n = 0
-    toks = ["{%", "%}", "{#", "#}", "{{", "}}", "<!--", "-->", " ", "a", "/", "{", "}", "\t"]
+    toks = ["{%", "%}", "{#", "#}", "{{", "}}", "<!--", "-->", " ", "a", "/", "{", "}", "\t", ".", ","]
     for s in _strings(toks, 4):
         n += 1
         want = {
@@ -60,7 +62,7 @@ def tag_line_predicates(viol):
             g = bool(getattr(T, fn)(s))
             if g != w:
                 viol.append({"clause": "tag_predicate_as_documented", "input": {"function": fn, "line": s}, "got": g, "want": w})
-        if len(viol) > 20:
+        if len(viol) - _v0 > 20:
             break
     return n
 
@@ -69,6 +71,7 @@ def atomic_patterns(viol):
     """what the atomic patterns must keep together: a code span runs from a backtick run to the next run of the same length;
     an HTML tag from '<letter' to the next '>', whatever the tag name; a closing tag likewise; a Markdown link is its
     bracket part plus an optional (...) or [...] part"""
+    _v0 = len(viol)
     from flowmark.linewrapping import atomic_patterns as AP
     n = 0
     cs = re.compile(AP.INLINE_CODE_SPAN.pattern, re.DOTALL)
@@ -88,8 +91,8 @@ def atomic_patterns(viol):
                 if j - k == run and k > run:
                     want = j
                     break
-                if j - k > run:      # a longer inner run: outside what flowmark's pattern promises (recorded finding
-                    break            # C01-code-span-backticks covers code spans holding backtick runs of other lengths)
+                if j - k > run:      # a longer inner run: outside what flowmark's pattern promises
+                    break
                 k = j
             else:
                 k += 1
@@ -131,6 +134,7 @@ def atomic_patterns(viol):
 
 def bare_url_test(viol):
     """_ends_with_bare_url(text) == the last whitespace-delimited token of text starts with http://, https:// or www."""
+    _v0 = len(viol)
     from flowmark.linewrapping import line_wrappers as LW
     n = 0
     toks = ["a", " ", "\n", "http://x", "https://y", "www.z", "xhttp://q", "www", "ftp://f", "\t"]
@@ -142,7 +146,7 @@ def bare_url_test(viol):
             want = bool(parts) and not s1[-1:].isspace() and parts[-1].startswith(("http://", "https://", "www."))
             if bool(LW._ends_with_bare_url(s)) != want:
                 viol.append({"clause": "ends_with_bare_url_as_documented", "input": {"text": s}, "got": LW._ends_with_bare_url(s), "want": want})
-                if len(viol) > 10:
+                if len(viol) - _v0 > 10:
                     return n
     return n
 
@@ -151,6 +155,7 @@ def link_destination_roundtrip(viol, maxlen=4):
     """_link_destination(d), put into '[t](...)' and '![t](...)', reads back (flowmark's own Marko configuration) as a link /
     image whose destination is d again -- for every d over an alphabet of the characters that matter for destinations; and
     a destination that the plain form can hold is returned unchanged (no gratuitous pointy brackets)"""
+    _v0 = len(viol)
     from flowmark.formats import flowmark_markdown as FM
     md = FM.flowmark_markdown()
     n = 0
@@ -178,7 +183,7 @@ def link_destination_roundtrip(viol, maxlen=4):
             e = first(md.parse(tmpl % r), (kind,))
             if e is None or e.dest != d:
                 viol.append({"clause": "link_destination_reads_back", "input": {"dest": d, "form": tmpl % r}, "got": None if e is None else e.dest, "want": d})
-                if len(viol) > 10:
+                if len(viol) - _v0 > 10:
                     return n
         plain_ok = first(md.parse("[t](%s)\n" % d), ("Link",))
         if d and plain_ok is not None and plain_ok.dest == d and type(plain_ok.children[0]).__name__ == "RawText" and r != d \
@@ -192,6 +197,7 @@ def coalesce_spec_sweep(viol, maxlen=5):
     hard break, code span, emphasis(RawText)}: the result is the reference 'each maximal run RawText (soft-break RawText)*
     becomes its first node holding the texts joined by newline; every other node is kept, in order, untouched (same
     objects)', and nothing but the text of those first nodes is written"""
+    _v0 = len(viol)
     import marko.block as B
     import marko.inline as I
     from flowmark.transforms.doc_transforms import coalesce_raw_text_nodes
@@ -245,7 +251,7 @@ def coalesce_spec_sweep(viol, maxlen=5):
             if not ok or not inner_ok:
                 viol.append({"clause": "coalesce_as_specified", "input": {"children": "".join(kinds)},
                              "got": [(type(a[0]).__name__, a[1]) for a in got], "want": [(type(a[0]).__name__, a[1]) for a in want]})
-                if len(viol) > 10:
+                if len(viol) - _v0 > 10:
                     return n
     return n
 
@@ -254,6 +260,7 @@ def parse_config_sweep(viol):
     """_parse_config_data against its specification: every documented key, in kebab-case or snake_case, at the top level or
     inside a [formatting] / [file-discovery] section, sets exactly its own FlowmarkConfig field to exactly the given value;
     keys that are not set stay None; an unknown key sets nothing and is reported on stderr; all pairs of settings together"""
+    _v0 = len(viol)
     import contextlib
     import io
     from dataclasses import fields
@@ -309,6 +316,7 @@ def fence_opener_sweep(viol):
     """the fence test of preprocess_tag_block_spacing (the regex literal handed to re.match in its body, read from the live
     source) against CommonMark's rule 'at most three spaces of indentation, then a run of >= 3 backticks or tildes' on every
     line of <= 7 symbols over {space, tab, backtick, tilde, a}: same verdict and same fence run"""
+    _v0 = len(viol)
     import ast
     import inspect
     import re
@@ -331,6 +339,37 @@ def fence_opener_sweep(viol):
         n += 1
         if got != want:
             viol.append({"clause": "fence_opener_as_commonmark", "input": {"line": s, "pattern": pats[0]}, "got": got, "want": want})
-            if len(viol) > 10:
+            if len(viol) - _v0 > 10:
+                break
+    return n
+
+
+def code_span_roundtrip(viol, maxlen=5):
+    """render_code_span(text), read back by flowmark's own parser inside a paragraph, is one code span whose text is `text`
+    again -- for every text of <= maxlen symbols over {backtick, letter, blank} that can be the text of a parsed span (not
+    blank-only, not both starting and ending with a blank: the parser strips that pair)"""
+    _v0 = len(viol)
+    import types
+    from flowmark.formats import flowmark_markdown as FM
+    md = FM.flowmark_markdown()
+    n = 0
+
+    def spans(e, out):
+        if type(e).__name__ == "CodeSpan":
+            out.append(e.children)
+        ch = getattr(e, "children", None)
+        if isinstance(ch, list):
+            for c in ch:
+                spans(c, out)
+        return out
+    for t in _strings(["`", "a", " "], maxlen):
+        if not t.strip(" ") or (t[0] == " " and t[-1] == " ") or "  " in t:
+            continue
+        r = FM.MarkdownNormalizer.render_code_span(None, types.SimpleNamespace(children=t))
+        n += 1
+        got = spans(md.parse("x " + r + " y\n"), [])
+        if got != [t]:
+            viol.append({"clause": "code_span_reads_back", "input": {"text": t, "rendered": r}, "got": got, "want": [t]})
+            if len(viol) - _v0 > 10:
                 break
     return n
